@@ -90,6 +90,7 @@ func main() {
 	maxViol := flag.Int("max-violations", 3, "models kept per violated obligation")
 	solverLog := flag.String("solver-log", "", "write solver input to <prefix>.<worker>.smt2")
 	modfile := flag.String("modfile", "", "alternative go.mod (dependency stubs as replace directives)")
+	flag.StringVar(&extraTags, "tags", "", "extra build tags (e.g. purego: the standard library's pure Go hash implementations)")
 	buildAll := flag.Bool("build-all", false, "build SSA for all packages up front")
 	flag.Var(&overlays, "overlay", "virtual=real overlay file mapping (repeatable)")
 	flag.Var(&params, "param", "name=int harness parameter (repeatable)")
@@ -240,8 +241,14 @@ func main() {
 	}
 }
 
+var extraTags string
+
 func buildFlags(modfile string) []string {
-	f := []string{"-tags=verif"}
+	tags := "-tags=verif"
+	if extraTags != "" {
+		tags += "," + extraTags
+	}
+	f := []string{tags}
 	if modfile != "" {
 		f = append(f, "-modfile="+modfile)
 	}
